@@ -187,6 +187,10 @@ class HistogramBase(abc.ABC):
         _FREQUENCY_SUPPORTED_DTYPES
     )
 
+    __array_priority__: ClassVar[float] = 100.0
+    """Let numpy arrays and scalars on the left of an operator defer to the histogram
+    (array + h and np.float64(c) * h follow the same rules as h + array and h * c)."""
+
     @property
     def default_axis_names(self) -> List[str]:
         """Axis names to be used when an instance does not define them."""
@@ -895,7 +899,7 @@ class HistogramBase(abc.ABC):
         return new
 
     def __radd__(self, other):
-        if other == 0:  # Enable sum()
+        if np.isscalar(other) and other == 0:  # Enable sum()
             return self.copy()
         return self + other
 
